@@ -282,7 +282,14 @@ let () =
         let seq = String.concat "," (List.map site ss) in
         let verdict =
           if not (readable (field outs "post") (field outs "vis")) then "fail:unreadable-after-complete-operation" else "ok" in
-        Mlutil.print_model ["seq=" ^ seq; "res=" ^ r; "pre=" ^ pre; "post=" ^ state ctx st'; "vis=" ^ visit_s ctx st'] verdict
+        (* yield points of the visit walk on the state before the operation: one per directory read *)
+        let nv =
+          let l1 = children [] st.d in
+          let l2 = List.concat_map (fun a -> List.map (fun b -> (a, b)) (children [a] st.d)) l1 in
+          let l3 = List.concat_map (fun (a, b) -> children [a; b] st.d) l2 in
+          1 + List.length l1 + List.length l2 + List.length l3 in
+        Mlutil.print_model ["seq=" ^ seq; "res=" ^ r; "pre=" ^ pre; "post=" ^ state ctx st'; "vis=" ^ visit_s ctx st';
+                            "nv=" ^ string_of_int nv] verdict
     | "crash", [capf; poolf; histf; opf; kf] ->
         let ctx = mk_ctx capf poolf in
         let st = run_hist ctx (parse_ops histf) in
@@ -342,6 +349,42 @@ let () =
             (match worst (worst main (var "v1")) (var "v2") with
              | None -> "ok"
              | Some r -> "fail:" ^ r) in
+        Mlutil.print_model model verdict
+    | "visit", [capf; poolf; histf; opf; kf; jf] ->
+        let ctx = mk_ctx capf poolf in
+        let st = run_hist ctx (parse_ops histf) in
+        let o = parse_op opf in
+        let k = int_of_string kf and j = int_of_string jf in
+        let (op, mb) = mk_op ctx st o in
+        let ss = steps enc dec ctx.hash ctx.capn op st.d in
+        let pre = state ctx st in
+        let (_, stpost) = do_op ctx st o in
+        let post = state ctx stpost in
+        (* the walk reads k times, then the operation advances j steps, then the walk finishes *)
+        let sched = List.init (k + 1) (fun i -> nat_of_int (if i = k then j else 0)) in
+        let mvis = match fst (cvisit dec true ((ss, st.d), sched)) with None -> "ERR" | Some _ -> "OK" in
+        let model = ["vis=" ^ mvis; "pre=" ^ pre; "post=" ^ post; "fin=" ^ post] in
+        let ivis = field outs "vis" and ipre = field outs "pre" and ipost = field outs "post" in
+        let verdict =
+          match outs with
+          | ["POOL-DIFFERS"] -> "fail:hash-of-pool-names-changed"
+          | _ ->
+            if ivis = "ERR" then "fail:visit-fails-while-another-operation-runs"
+            else begin
+              let pres = split '|' ipre and posts = split '|' ipost in
+              let pl = msgs_of (List.nth pres mb) in
+              let n = match o with OAdd _ -> int_of_nat (evict_count ctx.capn (nat_of_int (List.length pl))) | _ -> 0 in
+              let stages = List.init (n + 1) (fun i -> let l = drop i pl in if l = [] then "-" else String.concat ";" l) in
+              (* the walking store object does not know the ids issued meanwhile: compare without handles *)
+              let nohandle l = if l = "-" then "-" else
+                String.concat ";" (List.map (fun m -> match split '.' m with _ :: r -> String.concat "." r | [] -> m) (split ';' l)) in
+              let allowed = List.map nohandle (pres @ posts @ stages) in
+              let seen = List.map nohandle (if ivis = "none" then [] else split '|' ivis) in
+              if has_sub ivis "NOSRC" then "fail:visit-sees-message-without-content"
+              else if not (List.for_all (fun l -> l = "-" || List.mem l allowed) seen) then "fail:visit-shows-a-state-that-is-neither-old-nor-new"
+              else if field outs "fin" <> ipost then "fail:operation-interleaved-with-visit-ends-in-another-state"
+              else "ok"
+            end in
         Mlutil.print_model model verdict
     | "hist", [capf; poolf; opsf] ->
         let ctx0 = mk_ctx capf poolf in
